@@ -657,7 +657,11 @@ class RelationSchema:
         Returns:
             RelationSchema: A new RelationSchema object.
         """
-        schema = RelationSchema(name=dic["name"], aliases=dic.get("aliases", []))
+        schema = RelationSchema(
+            name=dic["name"],
+            aliases=dic.get("aliases", []),
+            primary_key=dic.get("primary_key"),
+        )
         for column in dic["columns"]:
             if isinstance(column, dict):
                 schema.columns.append(FlatColumn(**column))
